@@ -15,7 +15,7 @@ from ..run import hyp_run
 
 ID = 'C01'
 LEVEL = 'exploration'
-BUDGET_S = {'quick': 150, 'thorough': 1500}
+BUDGET_S = {'quick': 300, 'thorough': 1500}
 RULE = ('formulas over the operator grammar rendered from generated ASTs (exhaustive chains of <=3 operators over '
         'distinct primes with one decoration and one parenthesis pair; Hypothesis typed trees with <=10 operators over '
         'literals and references supplied by workbook constants / overrides / blanks; numeric literal grid); '
